@@ -153,14 +153,14 @@ func vNondetCond(sep string) (spec string, c vCond) {
 		spec = "!" + spec
 	}
 	form := 0
-	if vTier() == 1 {
+	if vP("forms", 0, 1) == 1 {
 		form = vChoose(4)
 	} else {
 		form = []int{0, 2, 3}[vChoose(3)]
 	}
 	switch form {
 	case 0: // name:value
-		v := vNondetString(vTier()^1, 1, "xy")
+		v := vNondetString(vP("strmin", 1, 0), 1, "xy")
 		c.want = v
 		spec += sep + v
 	case 1: // name:value:string-ish
@@ -177,7 +177,7 @@ func vNondetCond(sep string) (spec string, c vCond) {
 		if b {
 			lit = []string{"true", "1", "T"}
 		}
-		if vTier() == 1 {
+		if vP("forms", 0, 1) == 1 {
 			lit = append(lit, []string{"f", "FALSE", "False"}...)
 			if b {
 				lit = append(lit[:3], []string{"t", "TRUE", "True"}...)
@@ -293,33 +293,23 @@ func vC08keys(spec vSpec, relation bool) {
 }
 
 func H_C08_keys() {
-	if vTier() == 1 {
-		vC08keys(vSpec{Depth: 3, Width: 2, Kinds: "mlsn", KeyAlpha: "ab", KeyMin: 1, KeyMax: 1, StrAlpha: "x", StrMax: 0, NoListInList: true}, true)
-		return
-	}
-	vC08keys(vSpec{Depth: 2, Width: 2, Kinds: "mlsn", KeyAlpha: "ab", KeyMin: 1, KeyMax: 1, StrAlpha: "x", StrMax: 0, NoListInList: true}, true)
+	vC08keys(vSpec{Depth: vP("depth", 2, 3), Width: vP("width", 2, 2), Kinds: "mlsn", KeyAlpha: "ab", KeyMin: 1, KeyMax: 1, StrAlpha: "x", StrMax: 0, NoListInList: true}, true)
 }
 
 func H_C08_keys_deep() {
-	d := 4
-	if vTier() == 1 {
-		d = 6
-	}
+	d := vP("depth", 4, 6)
 	vC08keys(vSpec{Depth: d, Width: 1, Kinds: "mlsn", KeyAlpha: "ab", KeyMin: 1, KeyMax: 1, StrAlpha: "x", StrMax: 0}, false)
 }
 
 // H_C08_subkeys: sub-key arguments only filter, with the documented predicate.
 func H_C08_subkeys() {
-	depth := 2
-	if vTier() == 1 {
-		depth = 3
-	}
-	spec := vSpec{Depth: depth, Width: 2, Kinds: "mlsb", KeyAlpha: "ab", KeyMin: 1, KeyMax: 1, StrAlpha: "xy", StrMax: 1, StrMin: vTier() ^ 1, NoListInList: true}
+	depth := vP("depth", 2, 3)
+	spec := vSpec{Depth: depth, Width: vP("width", 2, 2), Kinds: "mlsb", KeyAlpha: "ab", KeyMin: 1, KeyMax: 1, StrAlpha: "xy", StrMax: 1, StrMin: vP("strmin", 1, 0), NoListInList: true}
 	m := vNondetMap(spec)
 	sep := vNondetString(1, 1, ":|")
 	SetFieldSeparator(sep)
 	nc := 1
-	if vTier() == 1 {
+	if vP("conds", 1, 2) == 2 {
 		nc = 1 + vChoose(2)
 	}
 	var conds []vCond
